@@ -261,39 +261,37 @@ def run(c, facts, tier):
     empty_rule(c, facts, b, g, infn, lead)
 
 
+_INNER = {}
+
+
+def inner_summary(b, infn):
+    from .. import inner
+
+    k = (id(b), infn.key)
+    if k not in _INNER:
+        _INNER[k] = inner.summarise(b.facts, b, peg.Grammar(b), infn.key)
+    return _INNER[k]
+
+
 def leading_pass(b, infn):
-    """The first parser applied to the raw input in the inner parse function (UFCS or method form)."""
-    env = {"__fn": infn, "__input": b._input_name(infn), "__tsubst": {}, "__module": infn.module}
-    for st in infn.body["stmts"]:
-        e = st.get("e") if st["k"] == "expr" else st.get("init")
-        if e is None:
-            continue
-        base, chain = rx.method_chain(e)
-        # walk down to the invocation
-        cand = [e] + [n for _, _, n in chain] + [base]
-        for x in cand:
-            inv = b._invocation(x, env)
-            if inv is not None:
-                return inv
-    return None
+    """The first parser applied to the raw input in the inner parse function, whatever the spelling (UFCS, method form,
+    through a helper function, in a `for` header); helper functions that only wrap one parser expression are seen through."""
+    s = inner_summary(b, infn)
+    ps = s.parses()
+    if not ps:
+        return None
+    return peg.Grammar(b).open(ps[0]["ir"])
 
 
 def empty_rule(c, facts, b, g, infn, lead):
     inp = b._input_name(infn)
-    stmts = infn.body["stmts"]
-    # position of the emptiness test
-    idx, ifnode = None, None
-    for i, st in enumerate(stmts):
-        for n in find_all(st, lambda n: n.get("k") == "if"):
-            cond = n["cond"]
-            if cond["k"] == "mcall" and cond["m"] == "is_empty" and rx.is_var(cond["recv"], inp):
-                idx, ifnode = i, n
-                break
-        if ifnode is not None:
-            break
-    if ifnode is None:
+    s = inner_summary(b, infn)
+    tests = [e for e in s.events if e["e"] == "isempty"]
+    ifs = find_all(infn.body, lambda n: n.get("k") == "if" and n["cond"]["k"] == "mcall" and n["cond"]["m"] == "is_empty" and rx.is_var(n["cond"]["recv"], inp))
+    if not tests or not ifs:
         c.ob("C06.empty", infn.key, "empty input ≡ -true", None, "no `if input.is_empty()` found in %s" % infn.key)
         return
+    ifnode = ifs[0]
     # a blank* skip on the same input dominates it
     dom = False
     if lead is not None:
@@ -301,23 +299,13 @@ def empty_rule(c, facts, b, g, infn, lead):
         if n["t"] == "seq" and n["items"]:
             first = unwrap(n["items"][0]["p"])
             dom = first["t"] == "set" and first["min"] == 0 and first["max"] is None and first["cs"] == peg.named_set("multispace")
-    # the leading pass must come before the test
-    lead_idx = None
-    env = {"__fn": infn, "__input": inp, "__tsubst": {}, "__module": infn.module}
-    for i, st in enumerate(stmts[: idx + 1]):
-        e = st.get("e") if st["k"] == "expr" else st.get("init")
-        if e is None:
-            continue
-        base, chain = rx.method_chain(e)
-        if any(b._invocation(x, env) is not None for x in [e, base] + [n for _, _, n in chain]):
-            lead_idx = i
-            break
+    before = [e for e in s.events if e["e"] == "parse" and e["id"] < tests[0]["id"]]
     c.ob(
         "C06.empty",
         infn.key,
         "blank* is skipped before the emptiness test",
-        dom and lead_idx is not None and lead_idx < idx,
-        "the first parser applied to the input %s with multispace0; it runs before `input.is_empty()`: %s" % ("starts" if dom else "does NOT start", lead_idx is not None and lead_idx < idx),
+        dom and bool(before) and not s.unknown,
+        "the first parser applied to the input %s with multispace0; it runs before `input.is_empty()`: %s%s" % ("starts" if dom else "does NOT start", bool(before), ("; statements not understood: %s" % s.unknown) if s.unknown else ""),
         witness="'   ' (blank-only input)" if not dom else None,
     )
     then = rx.peel(ifnode["then"])
